@@ -171,6 +171,41 @@ def engine_level(ctx):
                 if "act" in L.parse_trace(t2)[0] or L.parse_trace(t2)[1] == "ok":
                     ctx.fail("altered-reply-accepted:%s:%s" % (L.family(c), what),
                              {"engine": eng, "field": what, "client": L.sc_json(c2)}, t2[-200:])
+            # ---- the same point in its OTHER valid encoding: the hash must cover the bytes as received
+            if L.family(c) == "nist":
+                ks_b, qs_b, sig_b = L.split_fields(bytes([last_t]) + last_body, "sss")
+                c3 = dict(c)
+                c3["pkts"] = [(last_t, L.rebuild(last_t, ("s", ks_b), ("s", b"\x02" + qs_b[1:]), ("s", sig_b))[1:], last_x)]
+                t3 = L.run_scenario(c3)
+                scs.append(c3)
+                meta.append(("re-encoded", eng, "c", "Q_S"))
+                ctx.case(("re-encoded", eng, "c", tuple(c3["pkts"])), True)
+                ctx.dist("re-encoded:Q_S")
+                h3 = hashed_inputs(t3)
+                want3 = ref_input("nist", c["lv"], c["rv"], c["lk"], c["rk"], ks=ks_b, qc=vals["qc"],
+                                  qs=b"\x02" + qs_b[1:], K=kc[0][0])
+                if h3 and h3[0] != want3:
+                    ctx.fail("hash-does-not-cover-received-bytes:nist:client",
+                             {"engine": eng, "field": "Q_S", "client": L.sc_json(c3)},
+                             "Q_S received as %s, hashed input %s" % ((b"\x02" + qs_b[1:]).hex(), h3[0].hex()))
+                if "act" in L.parse_trace(t3)[0]:
+                    ctx.fail("altered-reply-accepted:nist:re-encoded-point", {"engine": eng, "client": L.sc_json(c3)}, t3[-200:])
+                s3 = dict(s)
+                qc_alt = b"\x02" + vals["qc"][1:]
+                s3["pkts"] = [(30, L.enc_str(qc_alt), 0)]
+                t3s = L.run_scenario(s3)
+                scs.append(s3)
+                meta.append(("re-encoded", eng, "s", "Q_C"))
+                ctx.case(("re-encoded", eng, "s", tuple(s3["pkts"])), True)
+                ctx.dist("re-encoded:Q_C")
+                h3s, k3s = hashed_inputs(t3s), khs(t3s)
+                if h3s and k3s:
+                    want3s = ref_input("nist", c["lv"], c["rv"], c["lk"], c["rk"], ks=vals["ks"], qc=qc_alt,
+                                       qs=vals["qs"], K=k3s[0][0])
+                    if h3s[0] != want3s:
+                        ctx.fail("hash-does-not-cover-received-bytes:nist:server",
+                                 {"engine": eng, "field": "Q_C", "server": L.sc_json(s3)},
+                                 "Q_C received as %s, hashed input %s" % (qc_alt.hex(), h3s[0].hex()))
     # malformed / out-of-order traffic (ties the rest of the engines' code)
     mal = L.malformed_scenarios(rng, 400 if ctx.thorough else 120)
     scs += mal
@@ -197,6 +232,65 @@ def engine_level(ctx):
                 ctx.dist("tolerated:p-1-refused")  # stricter range check: C08's business, not a mismatch of C06
                 continue
             ctx.disagree("kex-engine-trace", {"scenario": L.sc_json(sc), "kind": meta[i][0]}, model[i][:600], text[:600])
+
+
+def real_point_encoding_oracle(ctx):
+    """REAL `cryptography`, real engines, real hash (wrapped to record its input): the peer's point arrives in the
+    compressed SEC1 form (which from_encoded_point accepts). The bytes hashed must contain the octet string AS
+    RECEIVED (RFC 5656 section 4), K must be the ECDH secret, for all three curves and both roles."""
+    from cryptography.hazmat.primitives import serialization
+    from cryptography.hazmat.primitives.asymmetric import ec
+    from paramiko.kex_ecdh_nist import KexNistp256, KexNistp384, KexNistp521
+    from paramiko.message import Message
+
+    X962 = serialization.Encoding.X962
+    forms = {"uncompressed": serialization.PublicFormat.UncompressedPoint,
+             "compressed": serialization.PublicFormat.CompressedPoint}
+    rng = ctx.rng
+    for name, cls, curve in (("nistp256", KexNistp256, ec.SECP256R1()), ("nistp384", KexNistp384, ec.SECP384R1()),
+                             ("nistp521", KexNistp521, ec.SECP521R1())):
+        for role in "cs":
+            for form in ("uncompressed", "compressed"):
+                sc = L.base_scenario(rng, name, role)
+                sc["verify"] = "yes"
+                trace, recorded = [], []
+                ft = L.FakeTransport(sc, trace)
+                eng = cls(ft)
+                real_hash = cls.hash_algo
+
+                def rec_hash(data, real_hash=real_hash, recorded=recorded):
+                    recorded.append(bytes(data))
+                    return real_hash(data)
+
+                eng.hash_algo = rec_hash
+                eng.start_kex()
+                peer = ec.generate_private_key(curve)
+                peer_pt = peer.public_key().public_bytes(X962, forms[form])
+                mine = eng.P.public_key()
+                mine_pt = mine.public_bytes(X962, forms["uncompressed"])
+                K = int.from_bytes(peer.exchange(ec.ECDH(), mine), "big")
+                status = "ok"
+                try:
+                    if role == "c":
+                        eng.parse_next(31, Message(L.enc_str(sc["hostkey"]) + L.enc_str(peer_pt) + L.enc_str(b"sig")))
+                    else:
+                        eng.parse_next(30, Message(L.enc_str(peer_pt)))
+                except Exception as e:
+                    status = L.classify(e)
+                ctx.case(("real-point-encoding", name, role, form), form == "compressed")
+                ctx.dist("real-point-encoding:%s:%s:%s" % (form, role, status))
+                case = {"engine": name, "role": role, "encoding": form, "point": peer_pt.hex()}
+                if status != "ok" or len(recorded) != 1:
+                    # a valid SEC1 encoding that the library accepts must not break the exchange
+                    ctx.disagree("valid-point-encoding-refused", case, "accepted", "%s, %d hash calls" % (status, len(recorded)))
+                    continue
+                if role == "c":
+                    want = ref_input("nist", sc["lv"], sc["rv"], sc["lk"], sc["rk"], ks=sc["hostkey"], qc=mine_pt, qs=peer_pt, K=K)
+                else:
+                    want = ref_input("nist", sc["rv"], sc["lv"], sc["rk"], sc["lk"], ks=sc["hostkey"], qc=peer_pt, qs=mine_pt, K=K)
+                if recorded[0] != want:
+                    ctx.fail("hash-does-not-cover-received-bytes:nist:" + ("client" if role == "c" else "server"), case,
+                             "hashed %s, RFC 5656 input over the received octets %s" % (recorded[0].hex(), want.hex()))
 
 
 def set_k_h_level(ctx):
@@ -432,6 +526,15 @@ def e2e_mitm(ctx, kex, kind, algo, field, rng):
                 f[2] = bytes(b)
             hit.append(1)
             return L.rebuild(t, *zip(kinds, f))
+        if field == "reencode-Q_S" and d == "s2c" and t == 31 and fam == "ec":
+            f = L.split_fields(payload, "sss")
+            f[1] = recompress(kex, f[1])
+            hit.append(1)
+            return L.rebuild(t, *zip("sss", f))
+        if field == "reencode-Q_C" and d == "c2s" and t == 30 and fam == "ec":
+            (v,) = L.split_fields(payload, "s")
+            hit.append(1)
+            return L.rebuild(t, ("s", recompress(kex, v)))
         if field == "client-value" and d == "c2s" and t == (32 if fam == "gex" else 30):
             k = "m" if fam != "ec" else "s"
             (v,) = L.split_fields(payload, k)
@@ -533,6 +636,16 @@ def e2e_rekey_tamper(ctx, kex, kind, algo, field, rng):
         e.close()
 
 
+def recompress(kex, point):
+    """the SAME curve point in the compressed SEC1 encoding (02/03 ‖ x)"""
+    from cryptography.hazmat.primitives.asymmetric import ec
+    from cryptography.hazmat.primitives import serialization
+
+    curve = {"nistp256": ec.SECP256R1(), "nistp384": ec.SECP384R1(), "nistp521": ec.SECP521R1()}[kex]
+    return ec.EllipticCurvePublicKey.from_encoded_point(curve, point).public_bytes(
+        serialization.Encoding.X962, serialization.PublicFormat.CompressedPoint)
+
+
 def fresh_point(kex, old):
     from cryptography.hazmat.primitives.asymmetric import ec, x25519
     from cryptography.hazmat.primitives import serialization
@@ -564,7 +677,8 @@ def end_to_end(ctx):
     fields = ["hostkey-flip", "hostkey-swap", "value", "signature", "client-value"]
     if ctx.thorough:
         plan = [(k, kind, algo, f) for k in ALL_ENGINES for kind, algo in [KEY_ALGOS[2], KEY_ALGOS[3], KEY_ALGOS[6]]
-                for f in fields + (["gex-group-p", "gex-group-g"] if k.startswith("gex") else [])]
+                for f in fields + (["gex-group-p", "gex-group-g"] if k.startswith("gex") else [])
+                + (["reencode-Q_S", "reencode-Q_C"] if k.startswith("nist") else [])]
     else:
         plan = []
         for k in ["group14-256", "gex256", "nistp256", "c25519"]:
@@ -573,6 +687,9 @@ def end_to_end(ctx):
                 plan.append((k, kind, algo, f))
         plan.append((rng.choice(["group1", "group16", "gex", "nistp384", "nistp521", "group14"]),) + KEY_ALGOS[rng.randrange(7)]
                     + (rng.choice(fields),))
+        for j, k in enumerate(["nistp256", "nistp384", "nistp521"]):
+            for f in ("reencode-Q_S", "reencode-Q_C"):
+                plan.append((k,) + KEY_ALGOS[(j * 2 + len(f)) % 7] + (f,))
     for kex, kind, algo, f in plan:
         e2e_mitm(ctx, kex, kind, algo, f, rng)
     # the same on a re-exchange (host key unchanged)
@@ -607,6 +724,7 @@ def run(ctx):
                "host-key signatures are unforgeable (hypothesis Unforgeable of altered_reply_aborts)")
     ctx.build()
     engine_level(ctx)
+    real_point_encoding_oracle(ctx)
     set_k_h_level(ctx)
     end_to_end(ctx)
 
